@@ -52,7 +52,7 @@ theorem one_output_per_group (op : String) (w : Bool) (g : List String) (p : V) 
   simp [hop]
 
 /-- the engine's accumulators are the reference reductions, except that `sum` starts from 0
-and `avg` divides the plain sum by the count ... -/
+and `avg` starts its running mean from an empty group ... -/
 theorem engReduce_eq_reference (op : String) (p : V) (vals : List V)
     (h1 : op ≠ "sum") (h2 : op ≠ "avg") : engReduce op p vals = aggReduce op p vals := by
   unfold engReduce
@@ -64,18 +64,41 @@ theorem engReduce_sum (p : V) (v0 : V) (rest : List V) (hzero : ∀ v : V, add (
     engReduce "sum" p (v0 :: rest) = aggReduce "sum" p (v0 :: rest) := by
   simp [engReduce, aggReduce, List.foldl_cons, hzero]
 
+/-- ... and `avg` is the reference's running mean from the first member on (`addToMean`, since
+the repair of the overflowing `sum / count`), counting in the value type being what it is in `Nat` -/
+theorem engReduce_avg_eq_reference (hl : CountLaw V) (hm : MeanLaw V) (p : V) (v0 : V) (rest : List V) :
+    engReduce "avg" p (v0 :: rest) = aggReduce "avg" p (v0 :: rest) := engReduce_avg hl hm p v0 rest
+
+theorem reduce_hyp_plain (op : String) (p : V) (h1 : op ≠ "sum") (h2 : op ≠ "avg") :
+    ∀ vals : List V, vals ≠ [] → engReduce op p vals = aggReduce op p vals :=
+  fun vals _ => engReduce_eq_reference op p vals h1 h2
+
+theorem reduce_hyp_sum (p : V) (hzero : ∀ v : V, add (zero : V) v = v) :
+    ∀ vals : List V, vals ≠ [] → engReduce "sum" p vals = aggReduce "sum" p vals := by
+  intro vals hne
+  cases vals with
+  | nil => exact absurd rfl hne
+  | cons v0 rest => exact engReduce_sum p v0 rest hzero
+
+theorem reduce_hyp_avg (p : V) (hl : CountLaw V) (hm : MeanLaw V) :
+    ∀ vals : List V, vals ≠ [] → engReduce "avg" p vals = aggReduce "avg" p vals := by
+  intro vals hne
+  cases vals with
+  | nil => exact absurd rfl hne
+  | cons v0 rest => exact engReduce_avg hl hm p v0 rest
+
 /-- **the engine's scalar-table aggregation over any expression of the C01 fragment is the reference
 aggregation, up to the order of the groups**: the engine forms the groups once from `Series()`,
 the reference per step from the samples present; accumulators are fed in sample order in both.
 For every grouping (`by`/`without`, any label list incl. absent labels and `__name__`), every
-occupancy pattern and every scalar-table aggregator other than `sum`/`avg` (`engReduce_sum`
-covers `sum` under `0 + v = v`; `avg` is `sum / count` against the incremental mean - equal in
-exact arithmetic only). -/
+occupancy pattern and every scalar-table aggregator whose accumulator is the reference reduction
+on non-empty groups (`hR`): `reduce_hyp_plain` discharges it for all but `sum`/`avg`,
+`reduce_hyp_sum` for `sum` under `0 + v = v`, `reduce_hyp_avg` for `avg` under the counting laws. -/
 theorem aggregation_over_fragment (c : Ctx V) (hq : c.q.noDupCheck = true) (op : String) (w : Bool)
     (g : List String) (e : Expr V) (he : Frag false e)
     (hacc : engineAccumulators.contains op = true)
     (hvec : (!w && g.isEmpty && vectorizedAggs.contains op) = false)
-    (h1 : op ≠ "sum") (h2 : op ≠ "avg") :
+    (hR : ∀ vals : List V, vals ≠ [] → engReduce op nan vals = aggReduce op nan vals) :
     ∃ o, engOp c (.agg op w g e) = .ok o ∧
       ∀ t, ∃ ys out, o.step t = .ok ys ∧ eval c t (.agg op w g e) = .ok (.vec out) ∧
         (denote o.series ys).Perm out := by
@@ -91,7 +114,7 @@ theorem aggregation_over_fragment (c : Ctx V) (hq : c.q.noDupCheck = true) (op :
     simp only [hchild, bind, Except.bind, pure, Except.pure, hk, hacc, Bool.false_eq_true, if_false, Bool.not_true]
   · obtain ⟨xs, hxs, hids, hval⟩ := hstep t
     simp only [Bool.false_eq_true, if_false] at hval
-    obtain ⟨ys, out, hys, hspec, hperm⟩ := agg_perm child op w g none t xs nan hxs hids hvec rfl hk h1 h2
+    obtain ⟨ys, out, hys, hspec, hperm⟩ := agg_perm child op w g none t xs nan hxs hids hvec rfl hk hR
     refine ⟨ys, out, hys, ?_, hperm⟩
     rw [eval]
     simp only [hval, hspec, bind, Except.bind, pure, Except.pure, Value.asVec, dedupCheck, hq, Bool.not_true, Bool.false_and,
@@ -122,11 +145,18 @@ theorem reused_accumulators_are_per_step (hl : CountLaw V) (op : String)
     Acc.runs op a steps = steps.map fun s => if s.2.isEmpty then none else some (engReduce op s.1 s.2) :=
   acc_runs_eq hl op hop a steps
 
-/-- the law holds for exact arithmetic -/
+/-- the laws hold for exact arithmetic -/
 example : CountLaw Int := by
   intro n
   show ((n : Int) + 1 : Int) = ((n + 1 : Nat) : Int)
   omega
+example : MeanLaw Int := by
+  intro n
+  show (((n + 1 : Nat) : Int) == 1) = decide (n = 0)
+  by_cases h : n = 0
+  · subst h; rfl
+  · simp only [h, decide_false]
+    exact beq_false_of_ne (by omega)
 
 /-- **topk / bottomk keep the extreme samples**: for a NaN-free group and a value order that is a
 strict weak order, no sample the engine's bounded heap keeps is strictly smaller (topk; larger for
